@@ -285,7 +285,17 @@ func (s *Sim) tpDeliver(e *Env) Obs {
 	if n == nil || n.H == nil {
 		return Obs{}
 	}
-	return s.tpRecord(n, sx.List(sx.Int(0), s.msgSx(e.Msg, e.Valid)), nil, func() { n.H.Accept(e.Msg) })
+	arg := e.Msg
+	if s.Wire {
+		// delivery mode "wire" (pump.go): the recipient is handed what the wire format yields for the message
+		if w, err := wireCopy(e.Msg); err == nil {
+			arg = w
+		} else {
+			s.WireFail++
+			s.Trace = append(s.Trace, fmt.Sprintf("wire: %s -> %s round %d does not cross the wire format: %v", e.Msg.From, e.To, e.Msg.RoundNumber, err))
+		}
+	}
+	return s.tpRecord(n, sx.List(sx.Int(0), s.msgSx(e.Msg, e.Valid)), nil, func() { n.H.Accept(arg) })
 }
 
 func (s *Sim) tpStop(id party.ID) Obs {
